@@ -6,7 +6,7 @@
    ends (C18_fuel_*, C18_below_out_of_fuel); `rand`'s `fill` / `gen::<bool>` are modelled, not
    verified (see docs/notes/randsign.md). *)
 From BigNum Require Import Base BaseLemmas AddSub SpecAddSub AddSubProofs Sign SpecSign SignProofs
-  Rand SpecRand RandProofs Extracted InstAddSub.
+  Rand SpecRand RandProofs Extracted InstAddSub InstSign.
 Open Scope Z_scope.
 
 (** gen_biguint(n) = the first ceil(n/32) words as little-endian base-2^32 digits with the top
@@ -95,8 +95,8 @@ Proof. intros; apply gen_biguint_range_spec; auto using addsub_params_ok. Qed.
 Print Assumptions C18_biguint_range.
 
 Theorem C18_bigint_range : forall lo hi s, icanon lo -> icanon hi -> words s ->
-  gen_bigint_range addsub lo hi s = omap lift_i (spec_range (ival lo) (ival hi) s).
-Proof. intros; apply gen_bigint_range_spec; auto using addsub_params_ok. Qed.
+  gen_bigint_range Extracted.signs addsub lo hi s = omap lift_i (spec_range (ival lo) (ival hi) s).
+Proof. intros; apply gen_bigint_range_spec; auto using addsub_params_ok, sign_params_ok. Qed.
 Print Assumptions C18_bigint_range.
 
 Theorem C18_uniform_biguint : forall lo hi s, canon lo -> canon hi -> words s ->
@@ -111,13 +111,13 @@ Qed.
 Print Assumptions C18_uniform_biguint.
 
 Theorem C18_uniform_bigint : forall lo hi s, icanon lo -> icanon hi -> words s ->
-  (do u <- ui_new addsub lo hi; ui_sample addsub u s) = omap lift_i (spec_range (ival lo) (ival hi) s) /\
-  (do u <- ui_new_inclusive addsub lo hi; ui_sample addsub u s)
+  (do u <- ui_new Extracted.signs addsub lo hi; ui_sample Extracted.signs addsub u s) = omap lift_i (spec_range (ival lo) (ival hi) s) /\
+  (do u <- ui_new_inclusive Extracted.signs addsub lo hi; ui_sample Extracted.signs addsub u s)
     = omap lift_i (spec_range_inclusive (ival lo) (ival hi) s) /\
-  ui_sample_single addsub lo hi s = omap lift_i (spec_range (ival lo) (ival hi) s).
+  ui_sample_single Extracted.signs addsub lo hi s = omap lift_i (spec_range (ival lo) (ival hi) s).
 Proof.
   intros; split; [apply ui_new_sample_spec|split; [apply ui_new_inclusive_sample_spec|
-    apply gen_bigint_range_spec]]; auto using addsub_params_ok.
+    apply gen_bigint_range_spec]]; auto using addsub_params_ok, sign_params_ok.
 Qed.
 Print Assumptions C18_uniform_bigint.
 
@@ -174,7 +174,7 @@ Example C18_nonvacuous :
   gen_biguint_below [0; 5] [0; 0; 2684354560; 4294967295; 4294967295; 4294967295;
                             4294967295; 4294967295; 2147483648; 7]
     = Ret ([B - 1; 4], [7]) /\
-  gen_bigint_range addsub (mkint Minus [3]) (mkint Plus [2]) [7 * 536870912; 4 * 536870912; 11]
+  gen_bigint_range Extracted.signs addsub (mkint Minus [3]) (mkint Plus [2]) [7 * 536870912; 4 * 536870912; 11]
     = Ret (mkint Plus [1], [11]) /\
   gen_biguint_range addsub [5] [5] [1; 2] = Panic EmptyRange.
 Proof. repeat split; vm_compute; reflexivity. Qed.
